@@ -10,6 +10,9 @@ CONFIGS = {
     "alloc-set-lossy": dict(modes=("allocate", "set"), nmsg=(1, 1), eager=False, max_opens=4),
     "alloc-input-lossy": dict(modes=("allocate", "input"), nmsg=(1, 1), eager=False, max_opens=4),
     "set-set-eager": dict(modes=("set", "set"), nmsg=(2, 1), max_opens=4),
+    # reconnect attempts that die during the WebSocket negotiation (onClose without onOpen) after an earlier successful connection
+    "set-set-failed-reconnects": dict(modes=("set", "set"), nmsg=(1, 1), max_opens=4, adversary=("failopen-reconnect",)),
+    "alloc-set-lossy-failed-reconnects": dict(modes=("allocate", "set"), nmsg=(1, 1), eager=False, max_opens=4, adversary=("failopen-reconnect",)),
     "set-set-lossy-lazy": dict(modes=("set", "set"), nmsg=(1, 1), eager=False, canon="lazy", max_opens=4),
 }
 RESEND = {"claim": "claimed", "release": "released", "open": None, "allocate": "allocated", "list": "nameplates"}
@@ -18,7 +21,7 @@ RESEND = {"claim": "claimed", "release": "released", "open": None, "allocate": "
 class LossExplore(Explore):
     configs = CONFIGS
     canonical_close = False
-    allowed = {"drop", "open", "proc", "rx", "send", "set_code", "allocate", "input", "choose_nameplate", "choose_words", "turn"}
+    allowed = {"drop", "open", "failopen", "proc", "rx", "send", "set_code", "allocate", "input", "choose_nameplate", "choose_words", "turn"}
 
     def violations(self, sim, when):
         out = []
